@@ -23,42 +23,40 @@ func ListToArray(expr Sexp) ([]Sexp, error) {
 }
 
 func MakeList(expressions []Sexp) Sexp {
-	if len(expressions) == 0 {
-		return SexpNull
+	// back to front, in a loop: one Go call per element would
+	// make the length of the list the depth of the Go stack.
+	var list Sexp = SexpNull
+	for i := len(expressions) - 1; i >= 0; i-- {
+		list = Cons(expressions[i], list)
 	}
-
-	return Cons(expressions[0], MakeList(expressions[1:]))
+	return list
 }
 
 func MapList(env *Zlisp, fun *SexpFunction, expr Sexp) (Sexp, error) {
-	if expr == SexpNull {
+	// front to back, in a loop (see MakeList)
+	var first, last *SexpPair
+	for expr != SexpNull {
+		e, isPair := expr.(*SexpPair)
+		if !isPair {
+			return SexpNull, NotAList
+		}
+		head, err := env.Apply(fun, []Sexp{e.Head})
+		if err != nil {
+			return SexpNull, err
+		}
+		pair := &SexpPair{Head: head, Tail: SexpNull}
+		if first == nil {
+			first = pair
+		} else {
+			last.Tail = pair
+		}
+		last = pair
+		expr = e.Tail
+	}
+	if first == nil {
 		return SexpNull, nil
 	}
-
-	var list = &SexpPair{}
-	switch e := expr.(type) {
-	case *SexpPair:
-		list.Head = e.Head
-		list.Tail = e.Tail
-	default:
-		return SexpNull, NotAList
-	}
-
-	var err error
-
-	list.Head, err = env.Apply(fun, []Sexp{list.Head})
-
-	if err != nil {
-		return SexpNull, err
-	}
-
-	list.Tail, err = MapList(env, fun, list.Tail)
-
-	if err != nil {
-		return SexpNull, err
-	}
-
-	return list, nil
+	return first, nil
 }
 
 // O(n^2) for n total nodes in all lists. So this is
@@ -87,20 +85,21 @@ func ConcatTwoLists(a *SexpPair, b Sexp) (Sexp, error) {
 		return SexpNull, NotAList
 	}
 
-	if a.Tail == SexpNull {
-		return Cons(a.Head, b), nil
-	}
-
-	switch t := a.Tail.(type) {
-	case *SexpPair:
-		newtail, err := ConcatTwoLists(t, b)
-		if err != nil {
-			return SexpNull, err
+	// a copy of a's pairs, made in a loop (see MakeList), ending in b
+	first := &SexpPair{Head: a.Head}
+	last := first
+	for a.Tail != SexpNull {
+		t, isPair := a.Tail.(*SexpPair)
+		if !isPair {
+			return SexpNull, NotAList
 		}
-		return Cons(a.Head, newtail), nil
+		pair := &SexpPair{Head: t.Head}
+		last.Tail = pair
+		last = pair
+		a = t
 	}
-
-	return SexpNull, NotAList
+	last.Tail = b
+	return first, nil
 }
 
 func ListLen(expr Sexp) (int, error) {
